@@ -27,7 +27,7 @@ TITLE = 'METAL = inlining'
 LEVEL = 'exploration'
 SHARDS = {'quick': 16, 'thorough': 16}
 FLOOR = {'quick': 800, 'thorough': 10000}
-REQUIRED_MONITORS = {'pairs-compared': 2000, 'uses-with-fillers': 800, 'extend-chains': 150, 'switch-boundary-compared': 100, 'history-uses-compared': 100, 'translation-block-slots-compared': 100, 'whole-template-uses-compared': 300, 'load-directories-compared': 100}
+REQUIRED_MONITORS = {'pairs-compared': 2000, 'uses-with-fillers': 800, 'extend-chains': 150, 'switch-boundary-compared': 100, 'history-uses-compared': 100, 'translation-block-slots-compared': 100, 'whole-template-uses-compared': 300, 'load-directories-compared': 100, 'names-and-fallbacks-compared': 300}
 RULE = ('a case = (library of 1..3 macros with 0..3 define-slot regions each - repeated slot names allowed, nested uses of '
         'earlier macros inside bodies, extend-macro chains up to length 3 - , caller with 1..3 uses filling random subsets of '
         'slots plus unknown names, uses inside tal:repeat / tal:define, two consecutive uses in one scope, local and global '
@@ -387,6 +387,7 @@ def run(ctx):
     layer_slots_in_translation_blocks(ctx, 40 if ctx.quick else 400)
     layer_whole_template(ctx, 30 if ctx.quick else 500)
     layer_load_across_directories(ctx, 10 if ctx.quick else 150)
+    layer_names_and_fallbacks(ctx, 30 if ctx.quick else 400)
 
 
 
@@ -516,6 +517,59 @@ def layer_load_across_directories(ctx, n):
                               {'kind': 'load-dirs', 'steps': [list(x) for x in steps]})
     finally:
         shutil.rmtree(tmp, ignore_errors=True)
+
+
+
+def layer_names_and_fallbacks(ctx, n):
+    """(a) Macro and slot names in other scripts than Latin: names that differ are different macros / slots, whatever they
+    have in common once reduced to ASCII; (b) a macro expression that falls back: looking up a macro that does not exist
+    fails while the expression is evaluated, so `macros['custom'] | macros['standard']` and `exists:` guards work."""
+    rng = ctx.rng
+    NAMESETS = [('шапка', 'текст', 'цвета'), ('ヘッダ', 'フッタ', 'ボディ'), ('页眉', '页脚', '正文'), ('tête', 'tâte', 'tüte'), ('a①', 'a②', 'a③'), ('s1', 's2', 's3')]
+    for case in range(n):
+        kind = rng.choice(['slot-names', 'macro-names', 'fallback', 'exists-guard'])
+        other = ''
+        if kind == 'slot-names':
+            names = rng.choice(NAMESETS)
+            lib = '<lib><m metal:define-macro="m">' + ''.join('[<i metal:define-slot="%s">default-%d</i>]' % (nm, j) for j, nm in enumerate(names)) + '</m></lib>'
+            filled = [j for j in range(3) if rng.random() < .5]
+            other = rng.choice([x for x in NAMESETS if x is not names])[0]
+            use = '<u metal:use-macro="lib.macros[\'m\']">' + ''.join('<f metal:fill-slot="%s">filler-%d</f>' % (names[j], j) for j in filled) + \
+                  '<f metal:fill-slot="%s">discarded</f></u>' % other
+            want = '<x><m>' + ''.join('[%s]' % ('<f>filler-%d</f>' % j if j in filled else '<i>default-%d</i>' % j) for j in range(3)) + '</m></x>'
+            got = render('<x>' + use + '</x>', {}, lib=lib)[0]
+        elif kind == 'macro-names':
+            names = rng.choice(NAMESETS)
+            lib = '<lib>' + ''.join('<m metal:define-macro="%s">macro-%d</m>' % (nm, j) for j, nm in enumerate(names)) + '</lib>'
+            j = rng.randrange(3)
+            use = '<u metal:use-macro="lib.macros[\'%s\']"/>' % names[j]
+            want = '<x><m>macro-%d</m></x>' % j
+            got = render('<x>' + use + '</x>', {}, lib=lib)[0]
+        elif kind == 'fallback':
+            lib = '<lib><m metal:define-macro="standard">std[<i metal:define-slot="s">d</i>]</m></lib>'
+            expr = rng.choice(["lib.macros['custom'] | lib.macros['standard']", "nosuchvar | lib.macros['standard']",
+                               "lib.macros['custom'] | lib.macros['alsomissing'] | lib.macros['standard']"])
+            use = '<u metal:use-macro="%s"><f metal:fill-slot="s">F</f></u>' % expr
+            want = '<x><m>std[<f>F</f>]</m></x>'
+            got = render('<x>' + use + '</x>', {}, lib=lib)[0]
+        else:
+            lib = '<lib><m metal:define-macro="standard">std</m></lib>'
+            use = ('<a tal:condition="exists: lib.macros[\'sidebar\']"><u metal:use-macro="lib.macros[\'sidebar\']"/></a>'
+                   '<b tal:condition="exists: lib.macros[\'standard\']"><u metal:use-macro="lib.macros[\'standard\']"/></b>')
+            want = '<x><b><m>std</m></b></x>'
+            got = render('<x>' + use + '</x>', {}, lib=lib)[0]
+        ctx.mon('names-and-fallbacks-compared')
+        ctx.case(key=('names', kind, case % 11), nontrivial=True)
+        if got != want and kind in ('slot-names', 'macro-names') and got.startswith('RAISED SyntaxError') and \
+                any(not ('_' + ch).isidentifier() for nm in list(names) + [other] for ch in nm):
+            # known mechanism: the name is copied into an identifier of the generated module; a character that the name
+            # pattern accepts (\w) but Python identifiers do not (circled / superscript digits ...) makes the module invalid
+            ctx.violation('name-with-a-character-that-is-no-identifier-character-breaks-the-generated-module',
+                          '%s: LIB %r CALLER %r: %s' % (kind, lib, use, got), {'kind': 'metal', 'lib': lib, 'caller': '<x>' + use + '</x>',
+                                                                               'inlined': want, 'env': {}, 'placement': 'other'})
+        elif got != want:
+            ctx.violation('macro-or-slot-name-resolution', '%s: LIB %r CALLER %r rendered %r, expected %r' % (kind, lib, use, got, want),
+                          {'kind': 'metal', 'lib': lib, 'caller': '<x>' + use + '</x>', 'inlined': want, 'env': {}, 'placement': 'other'})
 
 
 def layer_slots_in_translation_blocks(ctx, n):
